@@ -176,6 +176,7 @@ func scenQRY(s *sched.Sim, cfg Config, res *Result) {
 	}
 	q := queryer.NewMultiOpQueryer(url, m).WithHTTPClient(&http.Client{Transport: &simnet.Transport{Net: net, Tag: "op0"}})
 
+	s.Describe(map[string]any{"N": N, "maxBatchSize": m, "fault_plan": fmt.Sprint(plans), "with_files": withFiles})
 	var returned bool
 	var got []map[string]interface{}
 	var gotErr error
